@@ -152,7 +152,8 @@ def handle : Handler := fun op args =>
         ++ " address=" ++ (match ad with | .ok (some s) => s | .ok none => "None" | .error e => "err:" ++ e.tag)
         ++ " asm=" ++ (match sc with
           | .ok b => hx (Pycoin.Script.utf8 (Pycoin.Script.disassemble b))
-          | .error e => "err:" ++ e.tag))
+          | .error e => "err:" ++ e.tag)
+        ++ " h160=" ++ (match i.field "hash160" with | some h => hx h | none => "None"))
   -- TxIn(...).public_key_sec() / .address(network.address): `cb` = 1 for the null outpoint
   | "c08txin", [net, cb, script] => do
     let net ← findNet net
